@@ -4,7 +4,8 @@
 (* the modules that carry a `panicked` flag or a NoLeak / NoPanic          *)
 (* invariant (FrpsGroups, FrpsWorkPool, FrpsSessions, NameTable).  This    *)
 (* module fixes the input alphabet for the message-level part: every       *)
-(* message type x field x boundary class, sent before and after login.     *)
+(* message type x field x boundary class, sent to frps before and after    *)
+(* login, and to frpc wherever a server may speak.                         *)
 (***************************************************************************)
 EXTENDS Integers, FiniteSets, Sequences, TLC
 
@@ -14,7 +15,9 @@ IntClasses == {"negative", "minusone", "zero", "one", "max16", "over16", "maxint
 StrClasses == {"empty", "long", "nonutf8", "unknown", "unicode"}
 ListClasses == {"nil", "emptyelem", "huge", "garbage"}
 Classes == IntClasses \cup StrClasses \cup ListClasses \cup {"baseline"}
-Phases == {"first-message", "after-login"}
+ServerPhases == {"first-message", "after-login"}                \* sent to a real frps
+ClientPhases == {"to-client-control", "to-client-workconn", "to-client-visitor", "to-client-login"}   \* sent to a real frpc by a scripted server
+Phases == ServerPhases \cup ClientPhases
 Cases == MsgTypes \X Classes \X Phases
 
 \* outcome of one case on a running server / client: the process is still alive and still serves
@@ -23,5 +26,5 @@ Init == done = {}
 Next == \E c \in Cases : c \notin done /\ done' = done \cup {c}
 Spec == Init /\ [][Next]_done
 TypeOK == done \subseteq Cases
-Small == Cardinality(done) <= 2
+Small == Cardinality(done) <= 1
 =============================================================================
